@@ -122,6 +122,27 @@ class SegEval:
                 return self.generic_visit(n)
 
         from .model import fresh
+
+        class L(ast.NodeTransformer):
+            # constant subscripts of a list of numbers the function built itself
+            def visit_Subscript(self, n):
+                sl = getattr(outer, "slists", {})
+                if isinstance(n.value, ast.Name) and n.value.id in sl:
+                    k = n.slice
+                    idx = k.value if isinstance(k, ast.Constant) and isinstance(k.value, int) else \
+                        -k.operand.value if isinstance(k, ast.UnaryOp) and isinstance(k.op, ast.USub) and isinstance(k.operand, ast.Constant) and isinstance(k.operand.value, int) else None
+                    lst = sl[n.value.id]
+                    if idx is not None and -len(lst) <= idx < len(lst):
+                        nm = "SL__%d" % len(outer._slvals)
+                        outer._slvals.append(lst[idx])
+                        outer.alg.env[nm] = lst[idx]
+                        return ast.Name(id=nm, ctx=ast.Load())
+                return self.generic_visit(n)
+
+        if getattr(self, "slists", None):
+            if not hasattr(self, "_slvals"):
+                self._slvals = []
+            node = L().visit(fresh(node))
         tree = T().visit(fresh(node))
         for b, i in getattr(self, "_lens", {}).items():
             self.alg.env["LEN__%d" % i] = self.len_atom(b)
@@ -278,6 +299,8 @@ class SegEval:
                 continue
             if isinstance(s, ast.Continue):
                 return ("continue", None)  # the rest of this iteration is skipped
+            if isinstance(s, ast.Break):
+                return ("break", None)  # the loop is left; the caller decides what that means
             if isinstance(s, ast.Assign) and len(s.targets) == 1:
                 self.assign(s.targets[0], s.value, s)
                 continue
@@ -309,6 +332,20 @@ class SegEval:
             self.vals[t.id] = ("none",)
             self.alg.env.pop(t.id, None)
             return
+        if isinstance(t, ast.Name) and isinstance(v, ast.List) and v.elts and all(isinstance(e, (ast.Constant, ast.Name, ast.BinOp, ast.UnaryOp)) for e in v.elts):
+            try:
+                nums = [self.num(e) for e in v.elts]
+            except Uninterpreted:
+                nums = None
+            if nums is not None and all(isinstance(x, RF) for x in nums):
+                if not hasattr(self, "slists"):
+                    self.slists = {}
+                self.slists[t.id] = nums
+                self.vals.pop(t.id, None)
+                self.alg.env.pop(t.id, None)
+                return
+        if isinstance(t, ast.Name) and t.id in getattr(self, "slists", {}):
+            self.slists.pop(t.id)
         if isinstance(t, ast.Name):
             self.vals.pop(t.id, None)
             sv = self.seq_value(v)
@@ -377,6 +414,14 @@ class SegEval:
     def call_stmt(self, c, s):
         if self.on_call is not None and self.on_call(self, c):
             return
+        if isinstance(c.func, ast.Attribute) and isinstance(c.func.value, ast.Name) and c.func.value.id in getattr(self, "slists", {}):
+            if c.func.attr == "append" and len(c.args) == 1:
+                try:
+                    self.slists[c.func.value.id].append(self.num(c.args[0]))
+                    return
+                except Uninterpreted:
+                    pass
+            self.err("call %s on a list of numbers not interpreted" % ast.unparse(c)[:60], s)
         if isinstance(c.func, ast.Attribute) and isinstance(c.func.value, ast.Name) and c.func.value.id in self.vals:
             cur = self.vals[c.func.value.id]
             m = c.func.attr
@@ -409,6 +454,21 @@ class SegEval:
     # ------------------------------------------------------------------ loops
     def loop(self, s):
         it = s.iter
+        sl = getattr(self, "slists", {})
+        if isinstance(it, ast.Call) and call_name(it) == "zip" and len(it.args) == 2 and isinstance(it.args[0], ast.Name) and it.args[0].id in sl and not s.orelse \
+                and isinstance(it.args[1], ast.Subscript) and isinstance(it.args[1].value, ast.Name) and it.args[1].value.id == it.args[0].id \
+                and isinstance(it.args[1].slice, ast.Slice) and isinstance(it.args[1].slice.lower, ast.Constant) and it.args[1].slice.lower.value == 1 \
+                and it.args[1].slice.upper is None and it.args[1].slice.step is None \
+                and isinstance(s.target, ast.Tuple) and len(s.target.elts) == 2 and all(isinstance(e, ast.Name) for e in s.target.elts):
+            # for a, b in zip(L, L[1:]) over a list of numbers built in this function: consecutive pairs
+            lst = list(sl[it.args[0].id])
+            a, b = s.target.elts[0].id, s.target.elts[1].id
+            for x, y in zip(lst, lst[1:]):
+                self.alg.env[a], self.alg.env[b] = x, y
+                out = self.run(s.body)
+                if out[0] not in ("fall", "continue"):
+                    self.err("exit from inside a loop", s)
+            return
         if not (isinstance(it, ast.Call) and call_name(it) == "range" and isinstance(s.target, ast.Name) and not s.orelse):
             self.err("loop form not interpreted: for %s in %s" % (ast.unparse(s.target), ast.unparse(it)[:60]), s)
         try:
